@@ -148,4 +148,72 @@ theorem step_parseopen_scalar_arrX {n : Nat} {st : St} {T : List Tok} {g0 : Byte
   rw [hT]
   simp [setTok]
 
+/-! ### parameter definitions -/
+
+/-- what `parse_parameter_definition` does after `[[name]` / `[[!name]` (a verbatim copy of the
+tail of `paramDefBody`); `nt` = recorded position of the name. -/
+def pdAfter (mixed : Bool) (tape : List Tok) (parent : Nat) (isU : Bool) (nt : Nat) (name d3 : Bytes) : Step :=
+  let ptok : Tok := paramTok isU ⟨nt, name⟩
+  match skipWs d3 with
+  | none => .done (.err .eof)
+  | some d4 =>
+    match splitAtScalar d4 with
+    | none => .done .panic
+    | some (kv, d5) =>
+      match skipWs d5 with
+      | none => .done (.err .eof)
+      | some d6 =>
+        match d6 with
+        | [] => .done .panic
+        | c :: rest =>
+          if c = 93 then
+            .cont { state := .key, mixed := mixed, parent := parent,
+                    tape := tape ++ [ptok] ++ [.unquoted ⟨d4.length, kv⟩] } rest
+          else
+            .cont { state := .kvs, mixed := mixed, parent := (tape ++ [ptok]).length,
+                    tape := tape ++ [ptok] ++ [.object parent false, .unquoted ⟨d4.length, kv⟩] } d6
+
+/-- a parameter name: non-empty, no boundary byte (so it ends at the `]`). -/
+def ParamName (name : Bytes) : Prop := name ≠ [] ∧ ∀ c ∈ name, isBoundary c = false
+
+theorem paramDefBody_name (mixed : Bool) (tape : List Tok) (parent : Nat) (isU : Bool) {name : Bytes}
+    (hn : ParamName name) (Y : Bytes) :
+    paramDefBody mixed tape parent (91 :: 91 :: ((if isU then [33] else []) ++ (name ++ 93 :: Y))) =
+      pdAfter mixed tape parent isU (name ++ 93 :: Y).length name Y := by
+  obtain ⟨c0, r0, hc0⟩ : ∃ c0 r0, name = c0 :: r0 := by
+    cases name with
+    | nil => exact absurd rfl hn.1
+    | cons c r => exact ⟨c, r, rfl⟩
+  subst hc0
+  have hsp : splitAtScalar (c0 :: (r0 ++ 93 :: Y)) = some (c0 :: r0, 93 :: Y) :=
+    splitAtScalar_token hn.1 hn.2 (.inr ⟨93, Y, rfl, bnd_rbr⟩)
+  have hc33 : c0 ≠ 33 := by
+    intro h; have := hn.2 c0 (by simp); rw [h] at this; simp [bnd_bang] at this
+  cases isU with
+  | true =>
+    simp only [if_true, List.cons_append, List.nil_append]
+    unfold paramDefBody pdAfter
+    simp only [List.getElem?_cons_succ, List.getElem?_cons_zero, decide_true, if_true, List.length_cons,
+      List.drop_succ_cons, List.drop_zero, List.isEmpty_cons, Bool.false_eq_true, if_false, hsp,
+      List.head?_cons, ne_eq, not_true_eq_false, List.tail_cons, List.length_append]
+    rw [if_neg (by omega)]
+    try rfl
+  | false =>
+    simp only [Bool.false_eq_true, if_false, List.nil_append, List.cons_append]
+    unfold paramDefBody pdAfter
+    have hd : decide (c0 = 33) = false := by simp [hc33]
+    simp only [List.getElem?_cons_succ, List.getElem?_cons_zero, Option.some.injEq, hd, Bool.false_eq_true,
+      if_false, List.length_cons, Nat.add_zero,
+      List.drop_succ_cons, List.drop_zero, List.isEmpty_cons, hsp,
+      List.head?_cons, ne_eq, not_true_eq_false, List.tail_cons, List.length_append]
+    rw [if_neg (by omega)]
+    try rfl
+
+
+theorem erase_unquoted (s : Slice) : (Tok.unquoted s).erase = .unquoted ⟨0, s.bytes⟩ := rfl
+
+theorem paramTok_erase (b : Bool) (t : Nat) (n : Bytes) :
+    (paramTok b ⟨t, n⟩).erase = paramTok b ⟨0, n⟩ := by cases b <;> rfl
+
+
 end Jomini.TextTape
